@@ -35,7 +35,7 @@ with iexpr :=
 | ISub (a b : iexpr)
 | IInt (a : sexpr).
 
-Inductive cmp := CLt | CGt | CGe | CEq.
+Inductive cmp := CLt | CGt | CGe | CEq | CLe | CNe.
 
 Inductive bexpr :=
 | BCmp (op : cmp) (a b : iexpr)
@@ -121,7 +121,7 @@ Section Eval.
     end.
 
   Definition cmp_z (op : cmp) (x y : Z) : bool :=
-    match op with CLt => x <? y | CGt => y <? x | CGe => y <=? x | CEq => x =? y end.
+    match op with CLt => x <? y | CGt => y <? x | CGe => y <=? x | CEq => x =? y | CLe => x <=? y | CNe => negb (x =? y) end.
 
   Fixpoint eval_b (s : st) (b : bexpr) : option bool :=
     match b with
